@@ -324,6 +324,10 @@ func runC05(c *core.Ctx) {
 		}
 	}
 
+	// ---- R11: a holder-driven shutdown reaches every channel it holds
+	c.Rule("R11", "CloseAll closes every element of the swapped-out map (shared with C13-R3)", 1)
+	importObligations(c, runC13, "R11", func(o *core.Obligation) bool { return strings.Contains(o.Key, "holder/closeall") })
+
 	// ---- R10: the library's own pipeline handlers pass the lifecycle events on
 	c.Rule("R10", "built-in handlers forward active / inactive to the next handler on every path, once, inactive with the exception they were given", 4)
 	root := p.TPkg("")
